@@ -84,7 +84,7 @@ func c01Header(c *Ctx) {
 		done := map[string]bool{}
 		for _, p := range successPaths(c, "R-C01-1", pi, nil) {
 			flds := raHeader(p.Results[0])
-			if flds == nil || flds["MaxInterval"] == nil {
+			if flds == nil || flds["MaxInterval"] == nil || monitorPath(p) {
 				continue
 			}
 			for _, pair := range [][2]string{{"Managed", "Managed"}, {"OtherConfig", "OtherConfig"}, {"UnicastOnly", "UnicastOnly"}, {"Verbose", "Verbose"}, {"Advertise", "Advertise"}, {"Monitor", "Monitor"}} {
